@@ -295,4 +295,40 @@ theorem pendR_eq_pendId (data : List SView) (e : Nat) (p : Pointer) (hs : Sorted
   have b := pendId_le_newIter data e p hs hp k hk st hid hrec hep i
   omega
 
+/-- `PtrOK` for the pointer of epoch `e`, remembering that the stream it names belongs to that epoch (so the pointer
+    stays resumable when the list is restricted to the streams of `e`, as the epoch-end flush does) -/
+def PtrOKe (data : List SView) (e : Nat) (p : Pointer) : Prop :=
+  p.gaugeId = 0 ∨ (∃ sv ∈ data, sv.id = p.streamId ∧ sv.epochId = e) ∨ ∀ sv ∈ data, sv.id < p.streamId
+
+theorem PtrOKe.ok {data : List SView} {e : Nat} {p : Pointer} (h : PtrOKe data e p) : PtrOK data p := by
+  rcases h with h | ⟨sv, h1, h2, _⟩ | h
+  · exact Or.inl h
+  · exact Or.inr (Or.inl (by rw [← h2]; exact List.mem_map_of_mem (f := (·.id)) h1))
+  · exact Or.inr (Or.inr h)
+
+theorem ptrOKe_last (data : List SView) (e : Nat) (hs : SortedData data) : PtrOKe data e Pointer.last := by
+  rcases ptrOK_last data hs with h | h | h
+  · exact Or.inl h
+  · right; right
+    intro sv hsv
+    obtain ⟨k, hk, he⟩ := List.getElem_of_mem hsv
+    have := hs.bound k hk
+    rw [ids_getD data k hk, he] at this
+    exact this
+  · exact Or.inr (Or.inr h)
+
+theorem ptrOKe_ptrOf (data : List SView) (e : Nat) (hs : SortedData data) (it : Nat × Nat) : PtrOKe data e (ptrOf data e it) := by
+  unfold ptrOf
+  by_cases hv : validAt data e it.1 it.2 = true
+  · obtain ⟨hlt, hok, _⟩ := (validAt_iff data e it.1 it.2).1 hv
+    simp only [hv, if_true, List.getElem?_eq_getElem hlt]
+    right; left
+    refine ⟨data[it.1], List.getElem_mem hlt, rfl, ?_⟩
+    unfold sOk at hok
+    simp only [Bool.and_eq_true, beq_iff_eq] at hok
+    exact hok.2
+  · have hv' : validAt data e it.1 it.2 = false := by simpa using hv
+    simp only [hv', Bool.false_eq_true, if_false]
+    exact ptrOKe_last data e hs
+
 end DymVerif.Incent
